@@ -252,8 +252,13 @@ class JSONPointer:
         # UTF-16 escape sequences - possibly surrogate pairs - inside UTF-8
         # encoded strings. As per https://datatracker.ietf.org/doc/html/rfc4627
         # section 2.5.
+        # `unicode-escape` decodes Latin-1 bytes, so non-ASCII characters are
+        # turned into escape sequences first and come back unchanged.
         return (
-            codecs.decode(s.replace("\\/", "/"), "unicode-escape")
+            codecs.decode(
+                s.replace("\\/", "/").encode("ascii", "backslashreplace"),
+                "unicode-escape",
+            )
             .encode("utf-16", "surrogatepass")
             .decode("utf-16")
         )
@@ -303,7 +308,10 @@ class JSONPointer:
             _parts = (unquote(p) for p in _parts)
         if unicode_escape:
             _parts = (
-                codecs.decode(p.replace("\\/", "/"), "unicode-escape")
+                codecs.decode(
+                    p.replace("\\/", "/").encode("ascii", "backslashreplace"),
+                    "unicode-escape",
+                )
                 .encode("utf-16", "surrogatepass")
                 .decode("utf-16")
                 for p in _parts
